@@ -262,9 +262,68 @@ def apply(seq, op, world: World):
         return seq.measure(op[1])
     if k == "magfield":
         return seq.set_magnetic_field(*op[1:4])
+    if k == "declare_var":
+        return seq.declare_variable(op[1], dtype=int if (len(op) < 3 or op[2] == "int") else float)
+    if k == "delay_v":  # delay by a variable: own (declared in seq) or foreign (declared in another sequence)
+        return seq.delay(_var(seq, op[1], world), op[2])
+    if k == "add_v":  # constant pulse whose amplitude is a variable
+        from pulser import Pulse
+
+        return seq.add(Pulse.ConstantPulse(op[2], _var(seq, op[1], world), 0.0, 0.0), op[3])
+    if k == "raw":  # ("raw", method, args, kwargs) — for deliberately ill-typed calls
+        return getattr(seq, op[1])(*op[2], **(op[3] if len(op) > 3 else {}))
+    if k == "add_obj":  # a non-Pulse object
+        return seq.add(op[1], op[2])
+    if k == "ro":
+        return read_only(seq, op, world)
     if k == "estimate":
         return seq.estimate_added_delay(make_pulse(op[1]), op[2], protocol=op[3] if len(op) > 3 else "min-delay")
     raise ValueError(f"unknown op {op}")
+
+
+def _var(seq, name, world):
+    if name.startswith("foreign"):
+        other = world.fresh(apply_prefix=False)
+        return other.declare_variable(name.split(":")[-1] if ":" in name else "x", dtype=int)
+    v = seq.declared_variables[name]
+    return v[0]
+
+
+def read_only(seq, op, world):
+    """Operations that must never change a sequence (C09)."""
+    kind = op[1]
+    if kind == "str":
+        return str(seq)
+    if kind == "sample":
+        from pulser.sampler import sample
+
+        return sample(seq, modulation=bool(op[2]) if len(op) > 2 else False)
+    if kind == "draw":
+        import matplotlib.pyplot as plt
+
+        try:
+            return seq.draw(show=False, **(op[2] if len(op) > 2 else {}))
+        finally:
+            plt.close("all")
+    if kind == "duration":
+        return [seq.get_duration(), seq.get_duration(include_fall_time=True)] + [
+            seq.get_duration(c, include_fall_time=f) for c in seq.declared_channels for f in (False, True)]
+    if kind == "phase_ref":
+        return [seq.current_phase_ref(q, b) for b in seq.get_addressed_bases() for q in world.qids]
+    if kind == "estimate":
+        return [seq.estimate_added_delay(make_pulse(op[2]), c, protocol=pr) for c in seq.declared_channels
+                for pr in ("min-delay", "no-delay", "wait-for-all")]
+    if kind == "abstract":
+        return seq.to_abstract_repr()
+    if kind == "serialize":
+        return seq._serialize()
+    if kind == "observers":
+        return [dict(seq.declared_channels), dict(seq.available_channels), seq.is_parametrized(), seq.is_measured(),
+                seq.declared_variables, seq.get_addressed_bases(), seq.get_addressed_states(),
+                [seq.is_in_eom_mode(c) for c in seq.declared_channels]]
+    if kind == "build":
+        return seq.build()
+    raise ValueError(f"unknown read-only op {op}")
 
 
 def op_channels(op) -> tuple:
